@@ -209,6 +209,11 @@ func vxFillFacts(t vxTemplate, k int, store factstore.FactStore, ref *vxRef) {
 				vxAssume(v >= 0 && v < t.rng)
 			}
 			args[j] = ast.Number(v)
+			if vxParam("KINDS", 1) > 1 && vxChoose(fmt.Sprintf("k%d_%d", i, j), 2) == 1 {
+				// the same payload as a duration: a different value with the same hash
+				args[j] = ast.Duration(v)
+				vxTag("mixed-kind-arguments")
+			}
 		}
 		a := ast.Atom{Predicate: p, Args: args}
 		if store != nil {
